@@ -68,10 +68,10 @@ mod h {
         kani::cover!(true);
     }
     /// the whole algorithm with k = 2 and at most two refinement rounds, eight distance tables per harness
-    fn whole<const BASE: u8>() {
+    fn whole<const BASE: u8, const COUNT: u8>() {
         let data = [0usize, 1, 2, 3];
         let mut code = BASE;
-        while code < BASE + 8 {
+        while code < BASE + COUNT {
             let d = distances(code);
             let km = KMedoids::new(2, 2, |a: &usize, b: &usize| d[*a][*b]);
             let clusters = km.calculate(&data);
@@ -81,14 +81,15 @@ mod h {
         }
         kani::cover!(true);
     }
-    #[kani::proof] #[kani::unwind(20)] fn kmedoids_tables_00_to_07() { whole::<0>() }
-    #[kani::proof] #[kani::unwind(20)] fn kmedoids_tables_08_to_15() { whole::<8>() }
-    #[kani::proof] #[kani::unwind(20)] fn kmedoids_tables_16_to_23() { whole::<16>() }
-    #[kani::proof] #[kani::unwind(20)] fn kmedoids_tables_24_to_31() { whole::<24>() }
-    #[kani::proof] #[kani::unwind(20)] fn kmedoids_tables_32_to_39() { whole::<32>() }
-    #[kani::proof] #[kani::unwind(20)] fn kmedoids_tables_40_to_47() { whole::<40>() }
-    #[kani::proof] #[kani::unwind(20)] fn kmedoids_tables_48_to_55() { whole::<48>() }
-    #[kani::proof] #[kani::unwind(20)] fn kmedoids_tables_56_to_63() { whole::<56>() }
+    #[kani::proof] #[kani::unwind(20)] fn kmedoids_tables_42_to_44() { whole::<42, 3>() }
+    #[kani::proof] #[kani::unwind(20)] fn kmedoids_tables_00_to_07() { whole::<0, 8>() }
+    #[kani::proof] #[kani::unwind(20)] fn kmedoids_tables_08_to_15() { whole::<8, 8>() }
+    #[kani::proof] #[kani::unwind(20)] fn kmedoids_tables_16_to_23() { whole::<16, 8>() }
+    #[kani::proof] #[kani::unwind(20)] fn kmedoids_tables_24_to_31() { whole::<24, 8>() }
+    #[kani::proof] #[kani::unwind(20)] fn kmedoids_tables_32_to_39() { whole::<32, 8>() }
+    #[kani::proof] #[kani::unwind(20)] fn kmedoids_tables_40_to_47() { whole::<40, 8>() }
+    #[kani::proof] #[kani::unwind(20)] fn kmedoids_tables_48_to_55() { whole::<48, 8>() }
+    #[kani::proof] #[kani::unwind(20)] fn kmedoids_tables_56_to_63() { whole::<56, 8>() }
     #[kani::proof] #[kani::unwind(10)] fn assignment_tables_00_to_07_medoids_0_3() { assignment::<0, 0, 3>() }
     #[kani::proof] #[kani::unwind(10)] fn assignment_tables_00_to_07_medoids_2_1() { assignment::<0, 2, 1>() }
     #[kani::proof] #[kani::unwind(10)] fn assignment_tables_24_to_31_medoids_0_3() { assignment::<24, 0, 3>() }
